@@ -406,6 +406,10 @@ func lexTaskCommands(l *Lexer) lexFn {
 		case r == '\n':
 			// If there's a newline, might be more commands on the next line
 			l.backup()
+			// The line may end in \r\n, in which case the \r is not part of the command
+			if strings.HasSuffix(l.all(), "\r") {
+				l.pos--
+			}
 			l.emit(token.COMMAND)
 			l.skipWhitespace()
 		case strings.HasPrefix(l.rest(), token.LINTERP.String()):
